@@ -76,6 +76,22 @@ class CtxObj:
         self._do(tok, None, False)
         return tok
 
+    def relay(self, tok, key, mutate, ikey, own_after):
+        """gateway pattern: the method calls an object of another daemon through a proxy of its own while it serves its
+        caller; the inner method sets a response annotation for ITS reply. The outer method sets its own annotation before
+        the nested call, or (own_after) afterwards."""
+        self._do(tok, None if own_after else key, mutate)
+        with CL.Proxy(self._back_uri) as q:
+            q._pyroBind()
+            self._nested.add(q._pyroConnection.sock.conn)
+            q.inner(tok + ".in", ikey)
+        if own_after:
+            if mutate:
+                cctx.response_annotations[key] = tok.encode()
+            else:
+                cctx.response_annotations = {key: tok.encode()}
+        return tok
+
     def items(self, tok, n, pause=0):
         """item stream: the generator's body runs inside later get_next_stream_item requests (on the daemon's own object)
         and records the context it sees there, under the name of the fetch it believes it is serving"""
@@ -93,6 +109,15 @@ class CtxObj:
     def prop(self):
         self._do("prop@%d" % len(self._snaps), None, False)
         return 1
+
+
+@api.expose
+class BackObj:
+    """lives on a second daemon; called by CtxObj.relay"""
+
+    def inner(self, tok, ikey):
+        cctx.response_annotations = {ikey: tok.encode()}
+        return tok
 
 
 _CODES = None
@@ -116,7 +141,7 @@ class CtxWorld(World):
             "time (virtual clock)", "uuid4 (seeded)"]
     PROBES = ["raise_after_set", "oneway_mutate", "worker_reuse", "handshake_after_raise", "batch", "ping", "prop",
               "assign_idiom", "mutate_idiom", "multiplex", "thread", "preempted", "pool_full_retry", "oneway_delayed", "reply_reset_then_reconnect", "bad_handshake", "peer_address_unavailable", "reset_after_oneway_request",
-              "daemon_annotations_hook", "stream_item_context", "request_annotations_written_in_place", "request_without_annotations", "serving_thread_was_a_client"]
+              "daemon_annotations_hook", "stream_item_context", "request_annotations_written_in_place", "request_without_annotations", "serving_thread_was_a_client", "nested_call"]
     RULE = ("plan = (server type, pool size 1-2, serializer, 2-3 clients x 1-2 sessions x 1-5 calls of kinds "
             "ret/boom/ow/plain/batch/prop/ping/stream (an item stream whose generator body records the context during every fetch), each with a unique annotation key set by assignment or mutation, "
             "pre-emption probabilities); distinct = distinct interleaving digest; non-trivial = at least two clients' "
@@ -140,12 +165,12 @@ class CtxWorld(World):
 
         def call():
             kn[0] += 1
-            k = rng.choice(["ret", "ret", "boom", "boom", "ow", "plain", "batch", "prop", "ping", "stream", "bare", "bare"])
+            k = rng.choice(["ret", "ret", "boom", "boom", "ow", "plain", "batch", "prop", "ping", "stream", "bare", "bare", "relay"])
             return {"kind": k, "key": "K%03d" % kn[0], "mutate": rng.random() < 0.5, "pause": rng.choice([0, 0, 0.01]),
                     "ow_delay": rng.choice([0, 0, 0.005, 0.02]), "work": rng.choice([0, 0, 0.01, 0.04]),
                     "reset_reply": k in ("ret", "boom", "plain") and rng.random() < 0.12,
                     "reset_after_request": k == "ow" and rng.random() < 0.25,
-                    "pad": rng.choice(pads), "n": rng.randint(1, 3)}
+                    "pad": rng.choice(pads), "n": rng.randint(1, 3), "own_after": rng.random() < 0.4}
 
         clients = []
         for _ in range(nclients):
@@ -229,6 +254,15 @@ class CtxWorld(World):
         if plan.get("taint"):
             ctx.probe("request_annotations_written_in_place")
         uri = daemon.register(obj, "o")
+        obj._nested = nested = set()    # connection numbers of the nested calls that relay() makes to the second daemon
+        obj._back_uri = None
+        back = back_loop = None
+        if any(c["kind"] == "relay" for cl in plan["clients"] for sess in cl["sessions"] for c in sess):
+            back = SV.Daemon(host="127.0.0.1", port=0)
+            obj._back_uri = back.register(BackObj(), "back")
+            back_loop = threading.Thread(target=back.requestLoop, name="back-daemon-loop")
+            back_loop.start()
+
         def serve():
             if plan.get("loop_leftover"):
                 # the thread that runs the request loop was a client itself before ("register with the name server, then serve"):
@@ -374,6 +408,11 @@ class CtxWorld(World):
                             cctx.annotations = {"REQA": (tok + ".close").encode()}
                             it.close()
                             cctx.annotations = {"REQA": tok.encode()}
+                        elif kind == "relay":
+                            rec["ikey"] = "I" + c["key"][1:]
+                            rec["own_after"] = bool(c.get("own_after"))
+                            p.relay(tok, c["key"], c["mutate"], rec["ikey"], rec["own_after"])
+                            ctx.probe("nested_call")
                         elif kind == "ow":
                             p.ow(tok, c["key"], c["mutate"], c.get("ow_delay", 0), pad)
                             if c.get("reset_after_request"):
@@ -428,7 +467,8 @@ class CtxWorld(World):
         reqs = {}      # (conn, seq) -> request info (last one wins; seq is unique per connection within a session)
         req_by_tok = {}
         for m in net.messages:
-            if m["dir"] == "c2s" and m["type"] == N.MSG_INVOKE:
+            if m["dir"] == "c2s" and m["type"] == N.MSG_INVOKE and m["conn"] not in obj._nested:
+                # (a nested call that a gateway method makes carries the annotations of the request being served: by design)
                 tok = m["ann"].get("REQA", b"").decode()
                 reqs[(m["conn"], m["seq"])] = m
                 req_by_tok[tok] = m
@@ -496,7 +536,7 @@ class CtxWorld(World):
                     bad.append("correlation id %r (client sent %r)" % (sn["corr"], rec["corr"]))
                 if bad:
                     ctx.violate("context-mismatch", kind, "%s(%s) observed %s" % (kind, tok, "; ".join(bad)))
-            if kind in ("ret", "boom", "ow", "batch"):
+            if kind in ("ret", "boom", "ow", "batch", "relay"):
                 setters += 1
                 ctx.probe("mutate_idiom" if rec["mutate"] else "assign_idiom")
             if kind == "boom":
@@ -517,9 +557,11 @@ class CtxWorld(World):
             return bool(plan.get("daemon_ann")) and k == DAEMON_KEY and bytes(v) == DAEMON_VAL
 
         replies = {}
+        nested = obj._nested
         for m in net.messages:
-            if m["dir"] != "s2c":
-                continue
+            rec = None
+            if m["dir"] != "s2c" or m["conn"] in nested:
+                continue        # (the second daemon's answers to the nested calls are not judged here)
             custom = {k: v for k, v in m["ann"].items() if k not in PYRO_KEYS and not own_key(k, v)}
             allowed = {}
             what = {N.MSG_CONNECTOK: "CONNECTOK", N.MSG_CONNECTFAIL: "CONNECTFAIL", N.MSG_PING: "PING", N.MSG_RESULT: "RESULT"}.get(m["type"], str(m["type"]))
@@ -528,11 +570,19 @@ class CtxWorld(World):
                 if req is not None:
                     tok = req["ann"].get("REQA", b"").decode()
                     rec = ops.get(tok)
-                    if rec is not None and rec["kind"] in ("ret", "boom", "batch"):
+                    if rec is not None and rec["kind"] in ("ret", "boom", "batch", "relay"):
                         allowed = {rec["key"]: tok.encode()}
                 replies[(m["conn"], m["seq"])] = custom
             foreign = {k: v for k, v in custom.items() if allowed.get(k) != v}
-            if foreign:
+            if foreign and m["type"] == N.MSG_RESULT and rec is not None and rec["kind"] == "relay" \
+                    and foreign == {rec["ikey"]: (tok + ".in").encode()}:
+                # the annotation that the INNER method set for its own reply (to the gateway method's proxy) travels on with the
+                # outer reply: the serving thread's call context is also the context of the client calls that thread makes
+                ctx.violate("nested-reply-annotation-forwarded", "relay", "%s(%s) made a nested call whose reply carried %r; that "
+                            "annotation was sent on with the reply to %s's own caller (connection %d seq %d: %r; the method itself set %s)"
+                            % (rec["kind"], tok, foreign, tok, m["conn"], m["seq"], custom,
+                               ("%r after the nested call" if rec["own_after"] else "%r before it") % rec["key"]))
+            elif foreign:
                 ctx.violate("foreign-annotation-sent", what, "%s on connection %d seq %d carries %r (allowed %r)"
                             % (what, m["conn"], m["seq"], foreign, allowed))
         # worker reuse / handshake after raise probes
